@@ -221,7 +221,8 @@ def alias_battery(seed):
 def run(chk):
     prog, base = setup(chk)
     maxn = 3 if chk.tier == "thorough" else 2
-    chk.bounds = ["every exported method of Element, Scalar, Point x every partition of {receiver, pointer arguments}; slices: receiver aliased to points[0], points[0] = points[1]; all argument values symbolic",
+    chk.bounds = ["input byte slices are modelled as carved out of a larger caller buffer (spare capacity behind them); any write to that buffer is reported",
+                  "every exported method of Element, Scalar, Point x every partition of {receiver, pointer arguments}; slices: receiver aliased to points[0], points[0] = points[1]; all argument values symbolic",
                   "multi-scalar term counts n <= %d" % maxn]
     chk.outside = ["byte-slice inputs overlapping typed receivers (impossible in Go without unsafe)"]
     chk.assumptions = ["'same result' is decided as: the aliased run meets the same specification, expressed over the original argument values, as the distinct run (value mod p / mod l / group element)"]
@@ -247,6 +248,14 @@ def run(chk):
         ("Scalar.MultiplyAdd", lambda: c07.api_op(base, chk, "MultiplyAdd", 3, lambda d, p, x, y, z: d.mul(p, x, y) + z, ("x*y+z", lambda x, y, z: x * y + z))),
         ("Scalar.Set", lambda: c07.api_op(base, chk, "Set", 1, lambda d, p, x: x, ("x", lambda x: x))),
         ("Scalar.Invert", lambda: c07.k_invert(base, chk)), ("Scalar.Equal", lambda: c07.k_equal(base, chk)),
+    ]
+    from . import c04, c08
+    l1s = L1m.L1(base, chk)
+    items += [
+        ("Scalar.SetCanonicalBytes input", lambda: c08.k_setter(base, chk, "SetCanonicalBytes", 32, lambda d, p, bs: K.bval(bs), ("x", lambda b: int.from_bytes(b, "little")), lambda b: int.from_bytes(b, "little") < K.L, canonical=True)),
+        ("Scalar.SetUniformBytes input", lambda: c08.k_setter(base, chk, "SetUniformBytes", 64, lambda d, p, bs: K.bval(bs), ("x (512 bit)", lambda b: int.from_bytes(b, "little")))),
+        ("Scalar.SetBytesWithClamping input", lambda: c08.k_setter(base, chk, "SetBytesWithClamping", 32, c08.clamp_lf, ("clamp(x)", c08.clamp_py))),
+        ("Point.SetBytes input", lambda: c04.k_setbytes(l1s)),
     ]
     l1 = L1m.L1(base, chk)
     for al in ("distinct", "zero receiver", "v=p", "v=q", "p=q", "v=p=q"):
@@ -288,6 +297,7 @@ def run(chk):
               ("Point.MultByCofactor", lambda o: o.name.startswith("MultByCofactor["), lambda: ptreplay.battery_unary("P.MultByCofactor", chk.seed, lambda p: ref.ed_mul(8, p)))]
     for r_ in ("ScalarMult", "ScalarBaseMult", "VarTimeDoubleScalarBaseMult", "MultiScalarMult", "VarTimeMultiScalarMult"):
         groups.append(("Point." + r_, lambda o, r_=r_: o.name.startswith(r_ + "["), lambda r_=r_: ptreplay.battery_scalarmult(chk.seed, which=("P." + r_,), maxn=maxn)))
+    groups.append(("Point.SetBytes", lambda o: o.name.startswith("Point.SetBytes"), lambda: c04.decode_battery(chk.seed)))
     for key, pred, bat in groups:
         L1m.settle(chk, [o for o in chk.obs if pred(o)], bat, key)
     chk.samples = [o.j() for o in chk.obs if "[" in o.name and "=" in o.name.split("[")[1][:12]][:8]
